@@ -11,6 +11,8 @@ prepared statement (the statement id names the tag); the server may answer it UN
 answers the PREPARE the driver then sends with the id of the statement text that arrived on that
 stream.  With `max_unwritable` the socket of a pooled connection may stop being writable
 (`Connection._socket_writable`, cleared by the libev reactor on EAGAIN): send_msg then refuses.
+With `n_block` a caller may issue blocking requests through `Connection.wait_for_response(timeout=...)` on a
+pooled connection: answered within the timeout, or the timed wait expires and the request stays on the wire.
 
 The oracle observes (a) the wire: what the server received, on which connection and stream, and
 what is still unanswered; (b) the application: what each future's callbacks were called with;
@@ -21,10 +23,13 @@ from collections import deque
 
 from vt.reqworld import ReqWorld, VConnection, Observer
 from cassandra.query import SimpleStatement
+from cassandra import ConsistencyLevel, OperationTimedOut
+from cassandra.protocol import QueryMessage
 from vt.world import wire
 from vt.vthreading import WouldBlock
 
 TAG0 = 100
+BLOCK_TAG0 = 500        # tags of the blocking requests (Connection.wait_for_response), apart from those of the futures
 ROWS_COLS = [('v', wire.T_INT)]
 
 
@@ -155,7 +160,8 @@ def timer_owner(t):
 class W9(ReqWorld):
     """params: protocol_version, max_in_flight, orphaned_threshold, initial_ids, timeout, n_req, max_faults, sched,
     prepared (requests are EXECUTEs of prepared statements), max_unprepared (UNPREPARED answers per history),
-    max_unwritable (socket-not-writable faults per history), prologue (events applied before the explorer takes over)"""
+    max_unwritable (socket-not-writable faults per history), n_block (blocking requests through Connection.wait_for_response
+    per history), block_timeout (their client-side timeout, 1.0), prologue (events applied before the explorer takes over)"""
 
     def __init__(self, params):
         p = dict(params)
@@ -184,6 +190,8 @@ class W9(ReqWorld):
         self.handling = []          # (executor task, connection): an answer taken off that connection whose handler the
         #                             driver queued on the executor (the continuation of a re-prepare) and that has not run yet
         self.prepared = {}
+        self.blocks = []            # blocking requests issued through Connection.wait_for_response: {'tag', 'conn', 'outcome', 'got'}
+        self._auto_block = None     # tag of the blocking request the node answers within the caller's timeout
         try:
             if p.get('prepared'):
                 self._prepare_statements()
@@ -228,7 +236,11 @@ class W9(ReqWorld):
             # that is still being opened (set_keyspace_blocking = wait_for_response, the opener blocks) is answered
             # by the auto server like the rest of the handshake.
             held = True
-        if held:
+        auto = False
+        if held and self._auto_block is not None and tag_of_request(req) == self._auto_block:
+            # the blocking request of an ('block', conn, 'answered') event: the node answers it at once (the caller is still waiting)
+            held, auto = False, True
+        if held or auto:
             vid, stream, _ = self.server.received[-1]
             tag = tag_of_request(req)
             for q in self.server.pending:
@@ -284,6 +296,43 @@ class W9(ReqWorld):
         self.futures.append(f)
         return f
 
+    def block(self, conn, answered):
+        """A thread other than the event loop issues a blocking request on `conn` through Connection.wait_for_response with a
+        client-side timeout (what the control connection, set_keyspace_blocking and register_watcher do).  Either the node answers
+        while the caller waits, or the timed wait expires in virtual time (OperationTimedOut) and the request stays unanswered on
+        the wire: the explorer may answer it later like any other held request."""
+        tag = BLOCK_TAG0 + len(self.blocks)
+        rec = {'tag': tag, 'conn': conn.vid, 'outcome': None, 'got': None}
+        self.blocks.append(rec)
+        msg = QueryMessage('SELECT %d' % tag, ConsistencyLevel.ONE)
+        before = len(self.arrivals)
+        on_req = self.server.on_request
+        if answered:
+            def on_request(server, c, stream, req):
+                # (the tag the node found in the request that arrived on that stream)
+                if req['op'] == 'QUERY' and tag_of_request(req) == tag:
+                    return wire.OP_RESULT, wire.result_rows(ROWS_COLS, [[tag]], req['version'])
+                return None
+            self._auto_block, self.server.on_request = tag, on_request
+        try:
+            try:
+                r = conn.wait_for_response(msg, timeout=self.p.get('block_timeout', 1.0))
+            finally:
+                self._auto_block, self.server.on_request = None, on_req
+        except OperationTimedOut:
+            # 'no-slot': every id of the connection was taken for the whole of the timeout, nothing was sent
+            rec['outcome'] = 'timed-out' if len(self.arrivals) > before else 'no-slot'
+        except Exception as e:
+            rec['outcome'] = 'error:' + type(e).__name__
+        else:
+            rec['outcome'] = 'answered'
+            try:
+                rec['got'] = list(r.parsed_rows)[0][0]
+            except Exception:
+                rec['got'] = repr(r)
+        self.flags.add('block-' + rec['outcome'].split(':')[0])
+        return rec
+
     def n_sent(self, use):
         return len([f for f in self.futures if (getattr(f, '_vuse', None) is not None) == use])
 
@@ -292,6 +341,9 @@ class W9(ReqWorld):
         late = p.stream in p.conn.orphaned_request_ids and not (p.conn.is_closed or p.conn.is_defunct)
         if late:
             self.flags.add('late')
+        if not (p.conn.is_closed or p.conn.is_defunct) and \
+                any(b['tag'] == tag_of_request(p.req) and b['outcome'] == 'timed-out' for b in self.blocks):
+            self.flags.add('block-late')        # the answer to a blocking request whose caller gave up arrives on a live connection
         if is_use(p.req):
             before = len(self.arrivals)
             internal = is_internal_use(p.req)
@@ -422,6 +474,11 @@ class W9(ReqWorld):
                 evs.append((('respond', k, 'unprepared'), 0))
         for f, t in self.timeout_timers():
             evs.append((('timeout', self.futures.index(f)), 0))
+        if len(self.blocks) < p.get('n_block', 0):
+            for c in self.pool_conns():
+                if not (c.is_closed or c.is_defunct) and self._published(c):
+                    evs.append((('block', c.vid), 0))                   # ... and its client-side timeout expires
+                    evs.append((('block', c.vid, 'answered'), 0))       # ... and the node answers in time
         if self.w.tasks:
             evs.append((('task',), 0))
         if p.get('sched') and self.w.sched_tasks:
@@ -481,6 +538,8 @@ class W9(ReqWorld):
                 self.answer(self.pending()[ev[1]])
         elif k == 'timeout':
             self.fire_timeout(self.futures[ev[1]])
+        elif k == 'block':
+            self.block(self.w.conns[ev[1]], len(ev) > 2)
         elif k == 'task':
             self.w.run_task(0)
         elif k == 'sched':
@@ -517,8 +576,9 @@ class W9(ReqWorld):
                           getattr(pool, '_is_replacing', None), tuple(sorted(t.vid for t in getattr(pool, '_trash', ()))),
                           tuple(sorted(x.vid for x in getattr(pool, '_connections', ()))), getattr(pool, '_keyspace', None)))
         handling = tuple(sorted(c.vid for c in self.w.conns for _ in range(self.being_handled(c))))
+        blocks = tuple((b['tag'], b['conn'], b['outcome'], b['got']) for b in self.blocks)
         return (conns, futs, pend, timers, tasks, scheds, tuple(pools), self.faults, self.session.keyspace, self.stuck,
-                self.n_unprepared, self.n_unwritable, handling)
+                self.n_unprepared, self.n_unwritable, handling, blocks)
 
 
 # ---------------------------------------------------------------------------------------- oracle
@@ -563,6 +623,12 @@ def judge(st, part, data, site):
                            % (f._vtag, tags, st.arrivals), data)
         elif len(tags) > 1:
             part.violation('C09/response-delivered-twice/%s' % site, 'request %r got its response %d times' % (f._vtag, len(tags)), data)
+    for b in getattr(st, 'blocks', ()):
+        # a blocking caller (Connection.wait_for_response) that got a response got the one to its own request
+        if b['outcome'] == 'answered' and b['got'] != b['tag']:
+            part.violation('C09/foreign-response/blocking/%s' % site,
+                           'the blocking request tagged %r on connection #%d returned the response %r (arrivals (conn, stream, tag): %r)'
+                           % (b['tag'], b['conn'], b['got'], st.arrivals), data)
     # -- the connection state the property names
     for c in st.w.conns:
         if c.is_closed or c.is_defunct:
